@@ -532,9 +532,75 @@ var c16IllDefs = []string{
 	"let f x =\n  match x with\n  | \"a\" -> x\n  | y -> f y\n",
 }
 
+// c16CyclicDriver enumerates definitions whose list literals relate nestings of two un-annotated
+// parameters: let f x y = let a = [E1; E2] (; let b = [E3; E4]) (; [E5; E6; E7]); every choice of
+// E from { x, y, [x], [y], [[x]], [[y]], (x, y) }.  Most are ill-typed (a type containing itself, directly
+// or through the other variable); fc must say so, not die.
+func c16CyclicDriver() func(c *explore.Chooser) string {
+	es := []string{"x", "y", "[x]", "[y]", "[[x]]", "[[y]]", "(x, y)"}
+	return func(c *explore.Chooser) string {
+		pick := func() string { return es[c.Choose(len(es))] }
+		var sb strings.Builder
+		sb.WriteString("let f x y =\n")
+		switch c.Choose(3) {
+		case 0: // one literal of three elements
+			fmt.Fprintf(&sb, "  [%s; %s; %s]\n", pick(), pick(), pick())
+		case 1: // two literals of two elements
+			fmt.Fprintf(&sb, "  let a = [%s; %s]\n  let b = [%s; %s]\n  (a, b)\n", pick(), pick(), pick(), pick())
+		case 2: // an equality and a literal
+			fmt.Fprintf(&sb, "  let a = %s = %s\n  let b = [%s; %s]\n  (a, b)\n", pick(), pick(), pick(), pick())
+		}
+		return sb.String()
+	}
+}
+
 func c16IllTyped(c *core.Ctx, fc string, sc *impl.Scratch) {
 	dir := sc.TempDir("c16i_")
 	defer os.RemoveAll(dir)
+	// the systematic part: every small definition relating nestings of two parameters
+	{
+		drv := c16CyclicDriver()
+		jobs := make(chan string, 256)
+		var wg sync.WaitGroup
+		for w := 0; w < c.Workers; w++ {
+			wg.Add(1)
+			go func() {
+				defer wg.Done()
+				d := sc.TempDir("c16y_")
+				defer os.RemoveAll(d)
+				for def := range jobs {
+					if c.TooManyViolations() {
+						continue
+					}
+					src := "package main\n\n" + def
+					os.WriteFile(filepath.Join(d, "t.fo"), []byte(src), 0o644)
+					r, o := c16Run(fc, d, []string{"t.fo"}, []string{"gen_t.go"})
+					c.Count(1, 0, 0, 1)
+					c.Outcome(o.class)
+					c.Hist("outcome_counts", o.class, 1)
+					c.Hist("by_operator", "cyclic-type-grammar", 1)
+					c.DistinctNT(src, true)
+					if o.class == "ok" || o.class == "rejected" {
+						continue
+					}
+					c.Violation(c16Sig(o, src), fmt.Sprintf("fc on the (ill-typed) definition %q: %s %s", def, o.class, o.detail),
+						map[string]any{"kind": "ill-typed", "foi": false, "input": map[string]string{"t.fo": src}, "expected": "ok or rejected", "observed": o.class + " " + o.detail + " exit=" + fmt.Sprint(r.Exit) + " " + trunc(r.Out(), 1500)})
+				}
+			}()
+		}
+		var cur string
+		st := explore.Explore(-1, func(ch *explore.Chooser) { cur = drv(ch) }, func(ch *explore.Chooser) bool {
+			if c.Expired() {
+				return false
+			}
+			jobs <- cur
+			return true
+		})
+		close(jobs)
+		wg.Wait()
+		c.Count(0, st.States, st.Transitions, 0)
+		c.Set("cyclic_type_definitions", st.Executions)
+	}
 	run := func(defs []string, name string) {
 		src := "package main\nimport frt\nimport slice\n\n" + strings.Join(defs, "\n")
 		os.WriteFile(filepath.Join(dir, "t.fo"), []byte(src), 0o644)
@@ -576,7 +642,25 @@ func c16Faults(c *core.Ctx, fc string, sc *impl.Scratch) {
 		"package main\n\nlet b0 () =\n  a0 ()\n",
 		"package main\n\nlet c0 () =\n  b0 ()\n",
 	}
-	faults := []string{"ok", "missing-input", "input-is-directory", "dest-is-directory", "dest-symlink-to-dev-full", "input-syntax-error"}
+	faults := []string{"ok", "missing-input", "input-is-directory", "dest-is-directory", "dest-symlink-to-dev-full", "input-syntax-error", "ok-over-stale-output"}
+	// reference outputs of the three good files (a clean directory, one invocation)
+	ref := map[string]string{}
+	{
+		dir := sc.TempDir("c16fr_")
+		var args []string
+		for i, g := range good {
+			n := fmt.Sprintf("x%d.fo", i)
+			os.WriteFile(filepath.Join(dir, n), []byte(g), 0o644)
+			args = append(args, n)
+		}
+		impl.Run(dir, 30*time.Second, "", fc, args...)
+		for i := range good {
+			b, _ := os.ReadFile(filepath.Join(dir, fmt.Sprintf("gen_x%d.go", i)))
+			ref[fmt.Sprintf("gen_x%d.go", i)] = string(b)
+		}
+		os.RemoveAll(dir)
+	}
+	stale := strings.Repeat("// stale line of an older, longer output\n", 200)
 	st := explore.Explore(-1, func(ch *explore.Chooser) {
 		n := 1 + ch.Choose(3)
 		pat := make([]int, n)
@@ -609,15 +693,18 @@ func c16Faults(c *core.Ctx, fc string, sc *impl.Scratch) {
 				os.Symlink("/dev/full", filepath.Join(dir, gen))
 			case "input-syntax-error":
 				os.WriteFile(filepath.Join(dir, name), []byte("package main\n\nlet a0 ( =\n"), 0o644)
+			case "ok-over-stale-output":
+				os.WriteFile(filepath.Join(dir, name), []byte(good[i]), 0o644)
+				os.WriteFile(filepath.Join(dir, gen), []byte(stale), 0o644)
 			}
-			if pat[i] != 0 && firstBad < 0 {
+			if pat[i] != 0 && faults[pat[i]] != "ok-over-stale-output" && firstBad < 0 {
 				firstBad = i
 			}
 		}
 		// do not pre-delete the planted destinations
 		var pre []string
 		for i, g := range gens {
-			if faults[pat[i]] != "dest-is-directory" && faults[pat[i]] != "dest-symlink-to-dev-full" {
+			if faults[pat[i]] != "dest-is-directory" && faults[pat[i]] != "dest-symlink-to-dev-full" && faults[pat[i]] != "ok-over-stale-output" {
 				pre = append(pre, g)
 			}
 		}
@@ -652,9 +739,14 @@ func c16Faults(c *core.Ctx, fc string, sc *impl.Scratch) {
 			class = "fatal"
 		case r.Exit == 0:
 			class = "ok"
-			for _, g := range gens {
+			for i, g := range gens {
 				if !isComplete(g) {
 					class = "ok-incomplete"
+				} else if faults[pat[i]] == "ok-over-stale-output" {
+					// an output that existed before must be replaced, not overlaid
+					if b, _ := os.ReadFile(filepath.Join(dir, g)); string(b) != ref[g] && firstBad < 0 {
+						class = "ok-stale-content-left"
+					}
 				}
 			}
 			if firstBad >= 0 && class == "ok" {
@@ -680,7 +772,14 @@ func c16Faults(c *core.Ctx, fc string, sc *impl.Scratch) {
 						class = "rejected-earlier-output-incomplete"
 					}
 					if i >= firstBad && exists(g) {
-						class = "rejected-dirty"
+						if faults[pat[i]] == "ok-over-stale-output" {
+							// planted before the run: it must have been left alone
+							if b, _ := os.ReadFile(filepath.Join(dir, g)); string(b) != stale {
+								class = "rejected-dirty"
+							}
+						} else {
+							class = "rejected-dirty"
+						}
 					}
 				}
 			}
